@@ -11,7 +11,8 @@ From Verif Require Import Base.GoInt Strategy.Model Strategy.ProofsBase Strategy
   Strategy.ProofsOk Strategy.ProofsOld Strategy.Glue Strategy.ProofsGlue Strategy.ModelW Strategy.ProofsW Strategy.ProofsW2 Calcium.DeployPath Calcium.DeployPathProofs.
 Local Open Scope Z_scope.
 
-Theorem C02_complete : forall infos need limit total,
+Theorem C02_complete :
+  forall infos need limit total,
   valid_infos infos -> 0 < need -> 0 <= limit ->
   forall s, s <> Other -> need <= max_int -> total = satsum (map cap infos) ->
   (feasible s need limit infos = true -> exists p, is_plan (deploy s need limit infos total) p) /\
@@ -23,7 +24,8 @@ Print Assumptions C02_complete.
 
 (* whatever total the caller passes: the outcome is a plan or an insufficient-* refusal
    (never a panic, never fuel exhaustion of the model) *)
-Theorem C02_total_outcome : forall infos need limit total,
+Theorem C02_total_outcome :
+  forall infos need limit total,
   valid_infos infos -> 0 < need -> 0 <= limit ->
   forall s, s <> Other ->
   (exists p, is_plan (deploy s need limit infos total) p) \/
@@ -39,22 +41,22 @@ Theorem C02_fill_old_refuted :
 Proof. exact fill_old_refuted. Qed.
 Print Assumptions C02_fill_old_refuted.
 
-Theorem C02_ok_sound_on_model : forall s need limit infos total ord,
-  C02_ok (mkCase s need limit infos total (deploy s need limit infos total) ord) = true.
-Proof. exact C02_ok_model. Qed.
-Print Assumptions C02_ok_sound_on_model.
-
+(* links between the boolean check, the statement and the model *)
 (* meaning of a passing check on an implementation output *)
-Theorem C02_ok_meaning : forall c, valid_case c = true -> c_total c = satsum (map cap (c_infos c)) ->
+Theorem C02_ok_links :
+  (forall s need limit infos total ord,
+  C02_ok (mkCase s need limit infos total (deploy s need limit infos total) ord) = true) /\
+  (forall c, valid_case c = true -> c_total c = satsum (map cap (c_infos c)) ->
   C02_ok c = true ->
   (feasible (c_strat c) (c_need c) (c_limit c) (c_infos c) = true ->
      exists p, o_res c = Ok p \/ o_res c = AlreadyFilled p) /\
   (feasible (c_strat c) (c_need c) (c_limit c) (c_infos c) = false ->
-     o_res c = Err EInsufficientResource \/ o_res c = Err EInsufficientCapacity).
-Proof. exact ProofsOk.C02_ok_meaning. Qed.
-Print Assumptions C02_ok_meaning.
+     o_res c = Err EInsufficientResource \/ o_res c = Err EInsufficientCapacity)).
+Proof. exact (conj C02_ok_model ProofsOk.C02_ok_meaning). Qed.
+Print Assumptions C02_ok_links.
 
-Theorem C02_glue : forall caps order status need limit total,
+Theorem C02_glue :
+  forall caps order status need limit total,
   valid_caps caps status -> Permutation caps order -> 0 < need -> 0 <= limit ->
   forall s, s <> Other -> need <= max_int -> total = satsum (map ce_cap order) ->
   (feasible s need limit (glue_infos order status) = true ->
@@ -66,7 +68,8 @@ Theorem C02_glue : forall caps order status need limit total,
 Proof. exact glue_C02. Qed.
 Print Assumptions C02_glue.
 
-Theorem C02_complete_int64 : forall s need limit infos total,
+Theorem C02_complete_int64 :
+  forall s need limit infos total,
   NoDup (names infos) -> dom64 s need limit infos ->
   s <> Other -> total = satsum (map cap infos) ->
   (feasible s need limit infos = true -> exists p, is_plan (deployW s need limit infos total) p) /\
@@ -76,20 +79,17 @@ Theorem C02_complete_int64 : forall s need limit infos total,
 Proof. exact C02_complete_W. Qed.
 Print Assumptions C02_complete_int64.
 
+(* composed deploy path: the total IS the saturating sum, C02 without that hypothesis *)
 (* ---- along the composed deploy path the total IS the saturating sum: C02 without
    the hypothesis on [total] (discharged by the cobalt / cpumem models) ---- *)
-Theorem C02_path_total :
-  forall (answers : list Merge.famap) morder,
+Theorem C02_path :
+  (forall (answers : list Merge.famap) morder,
   answers <> nil ->
   (forall a, In a answers -> NoDup (map fst a)) ->
   (forall a k v, In a answers -> In (k, v) a -> 0 <= Merge.n_cap v <= max_int) ->
   Permutation (entries_of (fst (Merge.gndc_f answers))) morder ->
-  snd (Merge.gndc_f answers) = satsum (map ce_cap morder).
-Proof. exact path_total. Qed.
-Print Assumptions C02_path_total.
-
-Theorem C02_path_complete :
-  forall sortf base maxshare raw req orders nodes caps morder status need limit s,
+  snd (Merge.gndc_f answers) = satsum (map ce_cap morder)) /\
+  (forall sortf base maxshare raw req orders nodes caps morder status need limit s,
   path_hyps sortf base maxshare raw req orders nodes caps morder status need limit ->
   s <> Other -> need <= max_int ->
   (feasible s need limit (glue_infos morder status) = true ->
@@ -97,6 +97,7 @@ Theorem C02_path_complete :
      deploy_path sortf base maxshare raw orders nodes morder status s need limit = PResult (AlreadyFilled nil)) /\
   (feasible s need limit (glue_infos morder status) = false ->
      deploy_path sortf base maxshare raw orders nodes morder status s need limit = PResult (Err EInsufficientResource) \/
-     deploy_path sortf base maxshare raw orders nodes morder status s need limit = PResult (Err EInsufficientCapacity)).
-Proof. exact deploy_path_C02. Qed.
-Print Assumptions C02_path_complete.
+     deploy_path sortf base maxshare raw orders nodes morder status s need limit = PResult (Err EInsufficientCapacity))).
+Proof. exact (conj path_total deploy_path_C02). Qed.
+Print Assumptions C02_path.
+
